@@ -42,6 +42,7 @@ def run(ctx) -> None:
     ctx.guard("C03.step-guard", step_guard_validator)
     ctx.guard("C03.step-guard", step_guard_wiring)
     ctx.guard("C03.step-guard", step_guard_evo)
+    ctx.guard("C03.step-guard", step_guard_distribute)
     ctx.guard("C03.validate-before-append", validate_before_append, "C03.validate-before-append")
     ctx.guard("C03.exit", exit_saves, "C03.exit")
 
@@ -296,6 +297,30 @@ def _limit_passthrough(fv, expr: ast.AST, at: int, param: str, depth: int = 0):
     return None, f"validator receives `{show(expr)[:70]}`: cannot relate it to the caller's max_volume"
 
 
+def step_guard_distribute(ctx, rule: str = "C03.step-guard") -> None:
+    """distribute refuses a per-well volume above the worklist's max_volume - and only that (a volume equal to it is fine)."""
+    f = ctx.prog.require_func("BaseWorklist.distribute", rule)
+    fv = ctx.fv(f)
+    selfn = f.params[0]
+    M = Poly.symbol(ast.Attribute(value=ast.Name(id=selfn, ctx=ast.Load()), attr="max_volume", ctx=ast.Load()))
+    V = Poly.symbol(ast.Name(id="volume", ctx=ast.Load()))
+    found = None
+    for n, test, pol, r in fv.raising_guards():
+        rt = fv.res.resolve(test, n.id)
+        cm = to_cmp(rt, pol)
+        if cm is None or not any(attr_of_name(x, selfn, "max_volume") for x in ast.walk(rt)):
+            continue
+        found = (n, cm, raise_class(fv, r)[0])
+    c = f"{f.qualname}/volume-guard"
+    if found is None:
+        ctx.rep.refuted(rule, c, "distribute has no guard that compares the per-well volume with self.max_volume: oversized reagent distributions are emitted", where=f.where())
+        return
+    n, cm, cls = found
+    ok = cm == Cmp(V - M, ">") and cls == "InvalidOperationError"
+    ctx.rep.check(ok, rule, c, "volume > self.max_volume raises InvalidOperationError",
+                  f"distribute rejects when `{cm.pretty()}` with {cls}; expected exactly `volume - self.max_volume > 0` with InvalidOperationError (a volume equal to max_volume is a valid step)", where=f.where(n.ast))
+
+
 def step_guard_evo(ctx, rule: str = "C03.step-guard") -> None:
     f = ctx.prog.require_func("prepare_evo_aspirate_dispense_parameters", rule)
     fv = ctx.fv(f)
@@ -332,6 +357,13 @@ def step_guard_evo(ctx, rule: str = "C03.step-guard") -> None:
         detail = ""
         for gn, test, rs in guards:
             parts = test.values if isinstance(test, ast.BoolOp) and isinstance(test.op, ast.And) else [test]
+            # besides the comparison the guard may only ask whether a limit was given at all
+            foreign = [p for p in parts if not (isinstance(p, ast.Compare) and len(p.ops) == 1 and (
+                isinstance(p.ops[0], (ast.Gt, ast.Lt, ast.GtE, ast.LtE)) or
+                (isinstance(p.ops[0], ast.IsNot) and is_name(p.left, "max_volume") and isinstance(p.comparators[0], ast.Constant) and p.comparators[0].value is None)))]
+            if foreign:
+                detail = f"the limit comparison only applies when `{show(foreign[0])[:40]}`: for a given max_volume it is never evaluated"
+                continue
             for p in parts:
                 rp = fv.res.resolve(p, gn.id)
                 cm = to_cmp(rp, True)
